@@ -13,16 +13,27 @@ CONFIG = {'gen': ['SmbCommands'],
              'Go slice semantics incl. capacity of Data.Bytes and of the stream built by GetBytesStream (runtime growth policy 8,16,…,512) '
              'as modelled in SmbIR/SmbCmd',
              'nested wire types through the C06 models (Manticore/Model/C06.lean, SmbCodecs adapters)'],
- 'technique': 'Lean 4: kernel-decided Conforms predicate (little-endian, declared widths, declaration order) over marshal programs '
-              'regenerated from /repo on every run; MS-CIFS encoder written in Lean as the oracle; differential correspondence on all 114 '
-              'commands',
- 'level_text': 'The kernel decides on the regenerated marshal programs that every integer emission of every command structure is '
-               'little-endian and exactly as wide as its declared type and that fields are emitted in declaration order, parameters before '
-               'data, with WriteRequest the only exception (non_conforming_commands); the AndX default block and the dialect list encoding '
-               'equal the specification for all inputs (andx_default_block, dialects_eq_spec). On every run the bytes emitted by the real '
-               'code are compared with an independent MS-CIFS encoder (Spec.Cifs.encode) on byte-distinct values for all 114 commands. '
-               "Recorded findings: SMB_FILE_ATTRIBUTES is big-endian (pinned by the repository's own tests), buffer format 0x03 carries a "
-               'length word.',
+ 'technique': 'Lean 4: static predicate Conforms on marshal programs (little-endian, declared widths, raw/nested emissions of the declared '
+              'kind, per-block declaration order, no assignment after emission, no declared field dropped), decided by the kernel on the '
+              'programs regenerated from /repo on every run, and proved sound for all field values against the MS-CIFS encoder written in '
+              'Lean (induction over the statement list); nested wire types proved conforming or refuted one by one; differential '
+              'correspondence on all 114 commands',
+ 'level_text': 'For all field values and every command whose regenerated marshal program passes the static predicate Conforms, the bytes '
+               'Marshal emits are the bytes of an independent MS-CIFS encoder written from the declared field list whenever that encoder '
+               "speaks (conforms_sound; conforms_sound_at / conforms_sound_std for the library's own nested encoders outside the two "
+               'recorded findings; param_block_eq_spec, data_block_eq_spec, andx_default_block for WordCount/Words/ByteCount(LE)/Bytes and '
+               'the AndX block). The kernel decides Conforms on the 115 regenerated programs: all conform except WriteRequest (data buffer '
+               'ahead of the parameter block) and six structures that never emit a declared field (non_conforming_commands, '
+               'core_non_conforming_commands, commands_dropping_fields: LockAndReadResponse.Reserved, NegotiateRequest.WordCount, '
+               'NegotiateResponse.ServerName, OpenAndxResponse.NMPipeStatus/Reserved, QueryInformationResponse.Reserved, '
+               'ReadResponse.Reserved); ten programs with loops or conditional fields lie outside the theorem '
+               '(commands_outside_straight_line) and are covered by the differential run only. Nested types: FILETIME, SMB_TIME, SMB_DATE, '
+               'SMB_NMPIPE_STATUS, LOCKING_ANDX_RANGE64, OEM_STRING and the dialect list conform for all values (std_nested_conforms, '
+               'dialects_eq_spec), SMB_STRING for formats 1, 2, 4, 5 (smb_string_conforms); SMB_FILE_ATTRIBUTES is big-endian and '
+               'SMB_STRING format 0x03 carries a length word (file_attributes_big_endian_counterexample, '
+               'smb_string_format3_counterexample, smb_string_format3_never_conforms). On every run the bytes emitted by the real code are '
+               'compared with Spec.Cifs.encode on byte-distinct values for all 114 commands.',
  'level_note': 'Trusted: Lean kernel; axioms propext, Classical.choice, Quot.sound; extractor and IR semantics tied by differential '
-               'testing (bounded); the MS-CIFS reading in Spec/Cifs.lean is hand-written from the rules of the specification; declared '
-               'field types taken as given.'}
+               'testing (bounded); the MS-CIFS reading in Spec/Cifs.lean is hand-written from the rules of the specification (it places '
+               'only the declared fields that some statement emits, which is why dropped fields are reported by Conforms and not by the '
+               'byte comparison); declared field types taken as given.'}
